@@ -655,14 +655,14 @@ class Emitter:
     def enc_fields(self, fields, getter, tag=None):
         parts = []
         if tag:
-            parts.append('fld %s (JStr %s)' % (cq(tag[0]), cq(tag[1])))
+            parts.append('FReq %s (JStr %s)' % (cq(tag[0]), cq(tag[1])))
         for k, f in enumerate(fields):
             v = getter(k, f)
             if f['skip_none']:
-                parts.append('ofld %s %s %s' % (cq(f['ser']), enc_of(f['ty'][1]), v))
+                parts.append('FOpt %s (option_map %s %s)' % (cq(f['ser']), enc_of(f['ty'][1]), v))
             else:
-                parts.append('fld %s (%s %s)' % (cq(f['ser']), enc_of(f['ty']), v))
-        return 'JObj (' + ' ++ '.join(parts + ['[]']) + ')'
+                parts.append('FReq %s (%s %s)' % (cq(f['ser']), enc_of(f['ty']), v))
+        return 'JObj (kv_of [' + '; '.join(parts) + '])'
 
     def dec_fields_obj(self, fields, ctor, rec=None):
         s = ''
@@ -771,7 +771,7 @@ class Emitter:
                 if rep == 'external':
                     self.w('  | %s => JStr %s' % (c, cq(v['ser'])))
                 else:
-                    self.w('  | %s => JObj (fld %s (JStr %s) ++ [])' % (c, cq(ir['tag']), cq(v['ser'])))
+                    self.w('  | %s => JObj (kv_of [FReq %s (JStr %s)])' % (c, cq(ir['tag']), cq(v['ser'])))
             elif v['shape'] == 'newtype':
                 self.w('  | %s a0 => %s a0' % (c, enc_of(v['ty'])))
             else:
@@ -781,19 +781,23 @@ class Emitter:
         self.w('  end.')
         # decoder
         if rep == 'external':
-            body = 'None'
-            for v in reversed(vs):
-                body = 'if smem s %s then Some %s else %s' % (names_list(v['de']), self.ctor(ir, v), body)
+            nss = '[' + '; '.join(names_list(v['de']) for v in vs) + ']'
+            body = 'match vindex s %s with\n' % nss
+            for k, v in enumerate(vs):
+                body += '    | Some %d%%nat => Some %s\n' % (k, self.ctor(ir, v))
+            body += '    | _ => None\n    end'
             self.w('Definition dec_%s (j : json) : option %s :=\n  bind (unit_variant_name j) (fun s => %s).' % (n, n, body))
         elif rep == 'internal':
             recd = (n, '(dec_%s_f n\')' % n) if rec else None
-            body = 'None'
-            for v in reversed(vs):
+            nss = '[' + '; '.join(names_list(v['de']) for v in vs) + ']'
+            body = 'match vindex s %s with\n' % nss
+            for k, v in enumerate(vs):
                 if v['shape'] == 'unit':
                     d = 'Some %s' % self.ctor(ir, v)
                 else:
                     d = self.dec_fields_obj(v['fields'], self.ctor(ir, v), recd)
-                body = 'if smem s %s then %s\n    else %s' % (names_list(v['de']), d, body)
+                body += '    | Some %d%%nat => %s\n' % (k, d)
+            body += '    | _ => None\n    end'
             core = 'bind (tag_of %s j) (fun \'(s, kv) =>\n    %s)' % (cq(ir['tag']), body)
             if rec:
                 self.w('Fixpoint dec_%s_f (n : nat) (j : json) : option %s :=\n  match n with O => None | S n\' =>\n  %s\n  end.' % (n, n, core))
@@ -878,7 +882,7 @@ class Emitter:
             self.w('Proof.\n  induction n as [|n IH]; intros x H; [lia|].\n'
                    '  destruct x; cbn [dec_%s_f]; unfold tag_of; cbn [enc_%s]; cbn [enc_%s] in H; rt_go;\n'
                    '  cbn [req]; (rewrite (rt_list_bounded _ _ _ n IH); [rt_go|]);\n'
-                   '  unfold fld, ofld in H; cbn [jdepth app fold_right snd] in H; lia.\nQed.' % (n, n, n))
+                   '  cbn [jdepth kv_of fold_right snd] in H; lia.\nQed.' % (n, n, n))
             self.w('Lemma rt_%s : forall x, dec_%s (enc_%s x) = Some x.' % (n, n, n))
             self.w('Proof. intros x. apply rt_%s_f. lia. Qed.' % n)
             self.w('#[export] Instance RT_%s : RT enc_%s dec_%s := rt_%s.' % (n, n, n, n))
